@@ -54,7 +54,8 @@ PROPS = {
     "C14": {
         "level": "proof",
         "lean_targets": ["LP.Props.C14"],
-        "harnesses": [{"name": "h_fsi", "quick": 4000, "thorough": 60000, "thorough_env": {"LPV_EXH7": "1"}}],
+        "harnesses": [{"name": "h_fsi", "quick": 4000, "thorough": 60000, "thorough_env": {"LPV_EXH7": "1"}},
+                      {"name": "h_zp", "quick": 1500, "thorough": 40000}],
         "select": lambda t: t[1] in ("fsi", "zp"),
         "nontrivial": lambda t, r: t[2] in ("intersect", "union", "eq", "add", "contains", "pick", "roots", "feasible"),
         "rule": "exhaustive: p in {2,3,5} (thorough: also 7): every ordered pair of subsets in all four listed/complemented representation "
@@ -141,13 +142,15 @@ PROPS = {
                       {"name": "h_interval", "quick": 20000, "thorough": 200000},
                       {"name": "h_poly", "quick": 20000, "thorough": 200000},
                       {"name": "h_fsi", "quick": 1500, "thorough": 20000},
-                      {"name": "h_container", "quick": 4000, "thorough": 40000}],
-        "select": lambda t: t[1] == "refs" or _dest_of(t) in ("p", "a", "b", "c", "s"),
+                      {"name": "h_container", "quick": 4000, "thorough": 40000},
+                      {"name": "h_div", "quick": 4000, "thorough": 40000}],
+        "select": lambda t: t[1] in ("refs", "div") or _dest_of(t) in ("p", "a", "b", "c", "s"),
         "nontrivial": lambda t, r: True,
         "viol_filter": _c19_viol_filter,
         "rule": "(1) reference-count histories (create/attach/detach/destroy of rings and contexts, external polynomials, vectors, "
                 "univariate polynomials, finite-field sets) with the ref_count fields read after every step; (2) every scalar, interval and "
-                "polynomial operation whose destination is a pre-used object of another shape, a constant, or an alias of an input; "
+                "polynomial operation whose destination is a pre-used object of another shape, a constant, or an alias of an input "
+                "(division family: quotient / remainder / multiplier outputs in all three prior states, incl. constant operands); "
                 "(3) all of these plus the set/container histories run under ASan+UBSan+LSan, any report is a violation. Counted cases = "
                 "reference histories and operations with a non-fresh destination; distinct = distinct line.",
         "trusted_base": ["memory-safety clause is monitored by sanitizers on the generated runs, not proved",
